@@ -202,6 +202,39 @@ func vpH_C11_unwalked() {
 	vpReach("end")
 }
 
+// the list put in bto/bcc is the same list value that another property (of the value itself, or of an
+// object it embeds) holds: the other property keeps its members
+func vpH_C11_shared_list() {
+	ti := vpTypeIndex(vpC11Types[vpChoice(len(vpC11Types))])
+	x := vpNew(ti)
+	vpSetField(x, 0, 0, 'i')
+	one := ItemCollection{IRI("https://h.ex/a"), IRI("https://h.ex/b")}
+	two := ItemCollection{IRI("https://h.ex/c")}
+	emb := &Object{ID: IRI("https://h.ex/e"), Type: NoteType, To: one, CC: two}
+	emb.Bto, emb.BCC = two, one
+	_ = OnObject(x, func(o *Object) error {
+		o.BCC, o.CC = one, one
+		o.Bto, o.To = two, two
+		o.Audience = two
+		o.Attachment = emb
+		return nil
+	})
+	tname := vpTypeNames[ti]
+	vpCleanable(x).Clean()
+	_ = OnObject(x, func(o *Object) error {
+		vpAssert("shared/lists-empty/"+tname, len(o.Bto) == 0 && len(o.BCC) == 0 && len(emb.Bto) == 0 && len(emb.BCC) == 0)
+		vpAssert("shared/cc-kept/"+tname, len(o.CC) == 2 && o.CC[0] == Item(IRI("https://h.ex/a")) && o.CC[1] == Item(IRI("https://h.ex/b")))
+		vpAssert("shared/to-kept/"+tname, len(o.To) == 1 && o.To[0] == Item(IRI("https://h.ex/c")))
+		vpAssert("shared/audience-kept/"+tname, len(o.Audience) == 1 && o.Audience[0] == Item(IRI("https://h.ex/c")))
+		return nil
+	})
+	vpAssert("shared/embedded-to-kept/"+tname, len(emb.To) == 2 && emb.To[0] == Item(IRI("https://h.ex/a")) && emb.To[1] == Item(IRI("https://h.ex/b")))
+	vpAssert("shared/embedded-cc-kept/"+tname, len(emb.CC) == 1 && emb.CC[0] == Item(IRI("https://h.ex/c")))
+	vpAssert("shared/the-list-itself-kept/"+tname, one[0] == Item(IRI("https://h.ex/a")) && one[1] == Item(IRI("https://h.ex/b")) && two[0] == Item(IRI("https://h.ex/c")))
+	vpAssert("shared/serialised/"+tname, !vpHasPrivate(vpMarshalOf(x)))
+	vpReach("end")
+}
+
 func vpW_C11_twin() {
 	x := &Object{ID: vpMkIRI('i'), Type: NoteType}
 	x.Clean()
